@@ -255,6 +255,9 @@ func Gen(o GenOpts) *rapid.Generator[Script] {
 			return rapid.SliceOfN(rapid.IntRange(0, 3*h+3), k, k).Draw(t, "picks")
 		}
 		stopAt := -1
+		if o.StopOps && s.Ver == 1 && s.Simple {
+			s.HandleLag = pick(t, "handlelag", int64(0), 0, 7, 40)
+		}
 		if o.StopOps && s.Ver == 1 && (!o.StopHalf || rapid.Bool().Draw(t, "stopped")) {
 			stopAt = rapid.IntRange(0, nops).Draw(t, "stopat")
 			s.Epilogue = "none"
